@@ -18,9 +18,9 @@ rt.fast_concrete_schema_handling()
 SCHEMAS = ["pair_field_record", "pair_field_enum", "pair_field_fixed", "pair_array_record", "pair_map_record", "pair_union_record",
            "ref_after_def", "ns_inherit", "ns_dotted", "ns_switch", "chain_rec_union_rec_arr", "chain_map_arr_rec",
            "union_named_mix", "union_two_recs", "rec_mutual", "rec_defaults2", "union_in_array_named", "map_named_twice",
-           "map_defines_named", "rec_enum_default"]
+           "map_defines_named", "rec_enum_default", "rec_two_children", "union_recs_by_ref", "err_nested"]
 QUICK = ["pair_field_record", "pair_array_record", "pair_union_record", "ref_after_def", "ns_inherit", "ns_switch",
-         "union_named_mix", "pair_field_enum", "rec_defaults2", "chain_rec_union_rec_arr", "map_named_twice", "map_defines_named"]
+         "union_named_mix", "pair_field_enum", "rec_defaults2", "chain_rec_union_rec_arr", "map_named_twice", "map_defines_named", "rec_two_children", "err_nested"]
 
 
 def nested_defs(schema):
@@ -73,9 +73,11 @@ def qualify(s, ns):
     return s
 
 
-def piecewise(schema, mask):
+def piecewise(schema, mask, preparsed=False):
     """(top schema with the selected nested definitions replaced by references, shared named_schemas dict).
-    The selected definitions are parsed separately, in definition order, against the shared dictionary."""
+    The selected definitions are parsed separately, in definition order, against the shared dictionary.
+    preparsed: a piece that can stand on its own is first parsed by itself and the *parsed* piece is then handed
+    to parse_schema together with the shared dictionary (parsing is idempotent, so this must make no difference)."""
     q = qualify(schema, "")
     defs = nested_defs(q)
     selected = [(p, full) for i, (p, full) in enumerate(defs) if (mask >> i) & 1]
@@ -92,7 +94,13 @@ def piecewise(schema, mask):
     for p, full in selected:
         # a piece may refer to pieces defined earlier: they are in `named` already when definition order is
         # respected; a piece referring to a later/enclosing type cannot be parsed separately -> not a valid split
-        S.parse_schema(pieces[full], named)
+        piece = pieces[full]
+        if preparsed:
+            try:
+                piece = S.parse_schema(copy.deepcopy(piece))
+            except Exception:
+                pass  # refers to another piece: cannot stand alone, stays raw
+        S.parse_schema(piece, named)
     parsed_top = S.parse_schema(top, named)
     return parsed_top, named, len(defs)
 
@@ -136,6 +144,16 @@ def case(name, thorough=False):
         except Exception as e:
             forms[mask] = None  # not a valid split (a piece needs a type defined later)
     c["forms"] = forms
+    # the same splits with the pieces parsed on their own first (idempotence of parsing)
+    pre = {}
+    for mask in range(1, 1 << c["ndefs"]):
+        if forms.get(mask) is None:
+            continue
+        try:
+            pre[mask] = piecewise(c["schema"], mask, preparsed=True)[0]
+        except Exception as e:
+            pre[mask] = ("failed", f"{type(e).__name__}: {e}")
+    c["forms_pre"] = pre
     # the same three forms of an evolved reader schema (C12 x resolution: a piecewise-parsed reader schema mentions
     # named types by name where the writer's schema defines them inline)
     c["reader"] = evolved(c["schema"])
@@ -175,11 +193,22 @@ def ob_idempotent(name):
     return True, ""
 
 
-def ob_forms_agree(c, v, mask):
+def ob_forms_agree(c, v, mask, pre=False):
     """binary encoding, read-back, validation and canonical form agree for raw / parsed / piecewise"""
     pw = _form(c, mask)
     if pw is None:
         return True, "out of domain"
+    if pre:
+        alt = None
+        for m, f in c["forms_pre"].items():
+            if mask == m:
+                alt = f
+        if alt is None:
+            return True, "out of domain"
+        if isinstance(alt, tuple) and alt[:1] == ("failed",):
+            return False, (f"the split with mask {mask} parses when the pieces are handed over raw but fails when they were "
+                           f"parsed on their own first: {alt[1]}")
+        pw = alt
     try:
         d = shape.build(c["ir"], c["names"], v, c["cfg"])
     except OutOfDomain:
@@ -297,9 +326,9 @@ def harnesses(tier, seed):
         setup = f"C = case({name!r}, {th})"
         sv = shape.samples(c["ir"], c["names"], c["cfg"], seed + 17, n=2)
         full = (1 << c["ndefs"]) - 1
-        call = "ob_forms_agree(C, v, mask)"
-        hs.append(Harness(f"forms.{name}", "props.l12", f"v: {a}, mask: int", call + "[0]", replay_call=call, setup=setup,
-                          what=f"raw/parsed/piecewise forms of {name}", samples=[(sv[0], 0), (sv[-1], full)],
+        call = "ob_forms_agree(C, v, mask, pre)"
+        hs.append(Harness(f"forms.{name}", "props.l12", f"v: {a}, mask: int, pre: bool", call + "[0]", replay_call=call, setup=setup,
+                          what=f"raw/parsed/piecewise forms of {name}", samples=[(sv[0], 0, False), (sv[-1], full, True)],
                           key=_key("forms", name, c)))
         call = "ob_reader_forms(C, v, mask)"
         hs.append(Harness(f"reader_forms.{name}", "props.l12", f"v: {a}, mask: int", call + "[0]", replay_call=call, setup=setup,
